@@ -167,6 +167,8 @@ pub fn request_range_extension<Node>(
     worker_params: &mut WorkerParams<Node>,
     nodes_tracker: &mut NodesTracker<Node>,
 ) {
+    #[cfg(nomt_verif)]
+    crate::verif::probe("beatree.extend_range_request");
     // UNWRAP: we should only be requesting a range extension when we have a right neighbor.
     // workers with no right neighbor have no limit to their range.
     let right_neighbor = worker_params.right_neighbor.as_ref().unwrap();
